@@ -175,6 +175,46 @@ def run(ctx):
           'decade fortunes step the month pillar by +-1 per decade with start ages 10 apart; yearly fortunes step the hour pillar by +-1 per year from the year the limit ends',
           str, fn_site(p, 'DecadeFortune::get_sixty_cycle'))
 
+    # ---- the remaining fortune accessors: siblings of the getters above must tell the same story
+    def fort2(x):
+        b, man, idx = x
+        cm = CalModel(I, terms, months)
+        cl = I.call('ChildLimit::from_solar_time', [cm.solar_time(*b), gender(man)])
+        fwd = t.m(cl, 'is_forward')
+        ec = t.m(cl, 'get_eight_char')
+        mp, hp = t.idx(t.m(ec, 'get_month')), t.idx(t.m(ec, 'get_hour'))
+        ey, sy = py(t.m(t.m(cl, 'get_end_time'), 'get_year')), py(t.m(t.m(cl, 'get_start_time'), 'get_year'))
+        ly = py(t.m(t.m(t.m(cl, 'get_start_time'), 'get_lunar_hour'), 'get_year'))     # lunar year of birth
+        sgn = 1 if fwd else -1
+        df = t.m(t.m(cl, 'get_start_decade_fortune'), 'next', idx)
+        f = t.m(t.m(cl, 'get_start_fortune'), 'next', idx)
+        pre = t.m(cl, 'get_decade_fortune')
+        sf = t.m(df, 'get_start_fortune')
+        got = {
+            'decade index': py(t.m(df, 'get_index')), 'decade name': t.name(df), 'decade end year': py(t.m(t.m(df, 'get_end_sixty_cycle_year'), 'get_year')),
+            'decade start lunar year': py(t.m(t.m(df, 'get_start_lunar_year'), 'get_year')), 'decade end lunar year': py(t.m(t.m(df, 'get_end_lunar_year'), 'get_year')),
+            'decade first yearly fortune age': py(t.m(sf, 'get_age')), 'decade first yearly fortune index': py(t.m(sf, 'get_index')),
+            'pre-limit decade pillar': t.idx(t.m(pre, 'get_sixty_cycle')), 'pre-limit decade index': py(t.m(pre, 'get_index')),
+            'limit start age': py(t.m(cl, 'get_start_age')), 'limit end age': py(t.m(cl, 'get_end_age')), 'limit end lunar year': py(t.m(t.m(cl, 'get_end_lunar_year'), 'get_year')),
+            'limit gender': t.name(t.m(cl, 'get_gender')) if False else I.values_equal(t.m(cl, 'get_gender'), gender(man)),
+            'yearly name': t.name(f), 'yearly lunar year': py(t.m(t.m(f, 'get_lunar_year'), 'get_year')), 'yearly index': py(t.m(f, 'get_index')),
+        }
+        exp = {
+            'decade index': idx, 'decade name': G.sixty((mp + sgn * (idx + 1)) % 60), 'decade end year': ey + 10 * idx + 9,
+            'decade start lunar year': ly + (ey - sy) + 10 * idx, 'decade end lunar year': ly + (ey - sy) + 10 * idx + 9,
+            'decade first yearly fortune age': ey - sy + 1 + 10 * idx, 'decade first yearly fortune index': 10 * idx,
+            'pre-limit decade pillar': mp, 'pre-limit decade index': -1,
+            'limit start age': 1, 'limit end age': max(ey - sy, 1), 'limit end lunar year': ly + (ey - sy),
+            'limit gender': True,
+            'yearly name': G.sixty((hp + sgn * (ey - sy + 1 + idx)) % 60), 'yearly lunar year': ly + (ey - sy) + idx, 'yearly index': idx,
+        }
+        bad = sorted(k for k in exp if got[k] != exp[k])
+        return tuple('%s: got %s want %s' % (k, got[k], exp[k]) for k in bad)
+    table(ctx, R, 'DecadeFortune/Fortune accessors', [(b, man, i) for b in births[::60] for man in (True, False) for i in (0, 1, 5)], fort2, lambda x: (),
+          'sibling accessors agree with the decade / yearly fortune rule: index, name, end year = start + 9, lunar-year twins offset by the birth lunar/civil year difference, '
+          'a decade\'s first yearly fortune has the decade\'s start age, the pre-limit decade carries the month pillar itself, limit ages 1 .. max(1, years elapsed)',
+          str, fn_site(p, 'DecadeFortune::get_start_fortune'))
+
     ctx.assumptions.append('numeric layer replaced by oracles: civil date <-> day number (C01), term instants (C05/C06), lunar month table (C02/C03)')
     ctx.not_decided.append('births whose limit ends inside October 1582: the addition routine does day-of-month arithmetic by month counts there (see known_findings.txt / DESIGN §5)')
     ctx.not_decided.append('LunarSect1 strategy (double-hour based; its own exchange rule is not part of the statement)')
